@@ -34,7 +34,8 @@ CONSTANTS Plans,        \* plan ids (1..2)
           RecoveryModes, \* subset of BOOLEAN: what a new process may be configured with
           Ops,          \* the API operations callers may use
           Aging,        \* TRUE: a submitted plan may grow older than the maximum submit age
-          TwoStep       \* TRUE: the vault keeps its search index in a second container, written in a second step (cosmosdb)
+          TwoStep,      \* TRUE: the vault keeps its search index in a second container, written in a second step (cosmosdb)
+          RecAging      \* TRUE: a new process may find Running plans whose last activity is older than the maximum (C11)
 
 VARIABLES store,    \* durable status of the plan: "none" | "NS" | "RU" | "CO" | "FA"
           adone,    \* durable result of the plan's action: "no" | "ok" | "fail"
@@ -67,8 +68,9 @@ Rank(s) == CASE s = "none" -> 0 [] s = "NS" -> 1 [] s = "RU" -> 2 [] OTHER -> 3
 IndexRepaired(st, ix) == [p \in Plans |-> IF ix[p] = "RU" THEN st[p] ELSE ix[p]]
 \* the volatile state of a new process on durable state st with (repaired) index ix: the engine's recovery resumes what
 \* a status search for Running returns
-Boot(st, ix, rec, g0) ==
-  LET rs == IF rec THEN {p \in Plans : ix[p] = "RU"} ELSE {}
+\* (ag: the Running plans recovery finds too old; they are closed as Failed, not resumed - their writes come from recovery itself)
+Boot(st, ix, rec, ag, g0) ==
+  LET rs == IF rec THEN {p \in Plans : ix[p] = "RU"} \ ag ELSE {}
       num == CHOOSE f \in [rs -> g0..(g0 + Cardinality(rs))] : \A a, b \in rs : a # b => f[a] # f[b]
   IN /\ alive' = TRUE /\ recovery' = rec
      /\ mu' = 0
@@ -76,7 +78,7 @@ Boot(st, ix, rec, g0) ==
      /\ gen' = g0 + Cardinality(rs) + 1
      /\ runners' = {[id |-> num[p], p |-> p, pc |-> "resume", out |-> "-"] : p \in rs}
      /\ call' = [c \in Callers |-> Idle]
-     /\ okstart' = [p \in Plans |-> p \in rs]
+     /\ okstart' = [p \in Plans |-> p \in rs \/ (rec /\ p \in ag)]
 
 Init ==
   /\ store = [p \in Plans |-> "none"] /\ adone = [p \in Plans |-> "no"] /\ idx = [p \in Plans |-> "none"] /\ old = [p \in Plans |-> FALSE]
@@ -256,10 +258,13 @@ Crash ==
 
 NewProcess ==
   /\ ~alive
-  /\ idx' = IndexRepaired(store, idx)
-  /\ \E rec \in RecoveryModes : Boot(store, idx', rec, gen)
+  /\ \E rec \in RecoveryModes :
+       \E ag \in (IF rec /\ RecAging THEN SUBSET {p \in Plans : IndexRepaired(store, idx)[p] = "RU"} ELSE {{}}) :
+          /\ store' = [p \in Plans |-> IF p \in ag THEN "FA" ELSE store[p]]
+          /\ idx' = [p \in Plans |-> IF p \in ag THEN "FA" ELSE IndexRepaired(store, idx)[p]]
+          /\ Boot(store, IndexRepaired(store, idx), rec, ag, gen)
   /\ ev' = [ev |-> "XRestart"]
-  /\ UNCHANGED <<store, adone, old, closed, ncalls, crashes, Hist, panicked>>
+  /\ UNCHANGED <<adone, old, closed, ncalls, crashes, Hist, panicked>>
 
 Internal ==
   \/ \E c \in Callers : SubCreate(c) \/ SLock(c) \/ SChk(c) \/ SRead(c) \/ SVal(c) \/ SRun(c) \/ SUnlock(c)
@@ -302,7 +307,9 @@ StaleRejected == \A c \in Callers : (call[c].op = "start" /\ call[c].pc = "ret" 
 \* C04: a terminal plan never changes; C08: the status never goes backwards (also across restarts)
 TerminalStable == [][\A p \in Plans : Rank(store'[p]) >= Rank(store[p]) /\ (store[p] \in Terminal => store'[p] = store[p])]_vars
 \* C11: a new process touches only plans stored Running, and only with recovery switched on
-OnlyRunningResumed == [][~alive /\ alive' => \A r \in runners' : store[r.p] = "RU" /\ recovery']_vars
+OnlyRunningResumed == [][~alive /\ alive' => \A r \in runners' : store[r.p] = "RU" /\ store'[r.p] = "RU" /\ recovery']_vars
+\* C11: a new process changes the stored status of a plan only to close a Running one as Failed, and only with recovery on
+OnlyStaleClosed == [][~alive /\ alive' => \A p \in Plans : store'[p] # store[p] => (store[p] = "RU" /\ store'[p] = "FA" /\ recovery' /\ ~\E r \in runners' : r.p = p)]_vars
 \* the index lags the plan by at most the one write in progress, and never claims more than the plan
 IndexLags == \A p \in Plans : Rank(idx[p]) <= Rank(store[p]) /\ (~TwoStep => idx[p] = store[p])
 \* liveness: every call returns (or the process dies), every plan that was started ends
